@@ -540,6 +540,7 @@ async fn one_history(seed: u64, run: u64, ops: u64, len: u64, subsets: u64, exha
     sum.add("eventual_syncs", journal.iter().filter(|j| matches!(j, JOp::Sync(true))).count() as u64);
     let mut synced_img: Vec<u8> = vec![];
     let mut synced_upto = 0usize; // journal[..synced_upto] applied to synced_img
+    let mut judged_synced: std::collections::HashSet<(usize, usize, bool)> = Default::default();
     let mut cache: HashMap<(usize, usize), Value> = HashMap::new(); // (s, p) with all of s..p kept -> recovered
     for p in p0..=journal.len() {
         let s = last_full_sync(&journal, p);
@@ -563,7 +564,8 @@ async fn one_history(seed: u64, run: u64, ops: u64, len: u64, subsets: u64, exha
                 images.push(("subset", keep));
             }
             sum.add("points_with_all_subsets", 1);
-        } else if k >= 2 {
+        } else if k >= 2 && (!big || p % 3 == 0) {
+            // (long-chain histories: every boundary gets the `all` image, every third a subset)
             for _ in 0..subsets {
                 images.push(("subset", random_survivors(&mut rng, &journal, s, p)));
             }
@@ -590,6 +592,11 @@ async fn one_history(seed: u64, run: u64, ops: u64, len: u64, subsets: u64, exha
         }
         images.extend(extra_images);
         for (mode, keep) in images {
+            // the same image under the same expectation (nothing unsynced kept, same acknowledged /
+            // in-flight operations) is judged once
+            if keep.is_empty() && !judged_synced.insert((s, acked, infl)) {
+                continue;
+            }
             // identical images (nothing unsynced kept / everything kept) are recovered once
             let key = if keep.is_empty() { Some((s, s)) } else if mode == "all" { Some((s, p)) } else { None };
             let cached = key.and_then(|k| cache.get(&k).cloned());
